@@ -1,20 +1,41 @@
 (* C03 — stree.Cursor navigation is consistent with key order and tree structure.
    Only statements, each closed by [exact] of a lemma proved in Stree/CursorProofs.v.
 
-   Vocabulary: CursorModel (the cursor operations, mirrored from stree/cursor.go), CursorSpec (a
-   valid cursor is three indices lo <= ix < hi into the ascending key list of its tree: its subtree
-   holds Ls[lo..hi), its key is Ls[ix]; [move_spec], [obs_spec]), CursorProofs.abs (the indices of
-   a model cursor), CursorProofs.wf ("the path is inside the tree and ends at a node"). *)
-From Coq Require Import ZArith List.
-Import ListNotations.
-From Mds Require Import Stree.StreeModel Stree.CursorModel Stree.CursorSpec Stree.CursorProofs.
+   Vocabulary: CursorModel (the cursor operations, mirrored from stree/cursor.go; [CNil] the nil
+   cursor, [CEmpty] a cursor with an empty path, [CAt p] a path of directions from the root),
+   CursorSpec (a valid cursor is three indices lo <= ix < hi into the ascending key list Ls of its
+   tree: its subtree holds Ls[lo..hi), its key is Ls[ix]; [move_spec], [follows], [obs_spec]),
+   CursorProofs.abs (the indices of a model cursor), CursorProofs.wf ("the path is inside the tree
+   and ends at a node"; trivially true of CNil and CEmpty), StreeSpec.sorted / s_get / total_preorder
+   (the vocabulary of C01: strictly ascending list, lookup of the equivalent element, lawful
+   comparison).
 
-(* Every history of Next/Prev/Left/Right/Up/Min/Max, from any cursor inside any tree (no ordering
-   needed: these are facts about positions): no panic, no fuel exhaustion, the path stays inside
-   the tree, and the sequence of positions is one the reference allows — Next/Prev move the index
-   by exactly one and become invalid exactly past the ends, Left/Right restrict the subtree's range
-   to the part below/above the key (invalid iff that part is empty), Up reaches the key adjacent to
-   the range, Min/Max its two ends; an invalid cursor stays as it is. *)
+   What is not here: that a Clone does not share its path array with the original is an aliasing
+   fact outside a functional model (C03_clone_value says only that the clone is at the same
+   place); the correspondence runs re-read every cursor after every move of any other. *)
+From Coq Require Import ZArith List Lia.
+Import ListNotations.
+From Mds Require Import Stree.StreeModel Stree.StreeSpec Stree.CursorModel Stree.CursorSpec Stree.CursorProofs.
+
+(* Every history of Next/Prev/Left/Right/Up/Min/Max, from any cursor inside any tree (ordering is
+   not needed: these are facts about positions), for any zero key: no panic, no fuel exhaustion,
+   every path stays inside the tree (wf), the sequence of positions is one the reference allows —
+   Next/Prev move the index by exactly one and become invalid exactly past the ends, Left/Right
+   restrict the subtree's range to the part below/above the key (invalid iff that part is empty),
+   Up reaches the key adjacent to the range, Min/Max its two ends, an invalid cursor stays as it
+   is — and at the start and after every move Valid, Key, HasNext, HasPrev, HasLeft, HasRight,
+   HasParent and Inorder answer what the reference position says (in particular Key = Ls[ix],
+   HasNext/HasPrev predict Next/Prev, Inorder = Ls[lo..hi), and an invalid cursor reports the zero
+   key, false everywhere and an empty Inorder). *)
+Theorem C03_history : forall (T : Type) (zero : T) (t : tree T) (c : cursor) (ms : list move),
+  wf T t c ->
+  exists cs, run t c ms = Ok cs /\
+             follows (length (inorder t)) (abs T t c) ms (map (abs T t) cs) /\
+             Forall (observed T zero t) (c :: cs).
+Proof. exact history_spec. Qed.
+Print Assumptions C03_history.
+
+(* the positions alone (the first registered form; kept as the statement without observers) *)
 Theorem C03_moves : forall (T : Type) (t : tree T) (c : cursor) (ms : list move),
   wf T t c ->
   exists cs, run t c ms = Ok cs /\ Forall (wf T t) cs /\
@@ -22,11 +43,97 @@ Theorem C03_moves : forall (T : Type) (t : tree T) (c : cursor) (ms : list move)
 Proof. intros T t c ms. exact (run_spec T ms t c). Qed.
 Print Assumptions C03_moves.
 
-Example C03_moves_example :
-  let t := Node (Node Leaf 1%Z (Node Leaf 2%Z Leaf)) 3%Z (Node Leaf 4%Z Leaf) in
-  wf Z t (CAt [L; R]) /\
-  run t (CAt [L; R]) [MNext; MNext; MNext; MPrev; MUp; MMin; MRight; MLeft] =
+(* Tree.Cursor(k), for every lawful comparison and every search tree: it is valid exactly when the
+   tree holds a key equivalent to k, it then lies inside the tree and Key is that stored
+   representative (the one Get returns); for an absent key it is the nil cursor. *)
+Theorem C03_cursor_lookup : forall (T : Type) (zero : T) (cmp : T -> T -> Z),
+  total_preorder cmp -> forall (k : T) (t : tree T), sorted cmp (inorder t) ->
+  exists c, tree_cursor cmp t k = Ok c /\ wf T t c /\
+    match s_get cmp k (inorder t) with
+    | Some x => valid c = true /\ key zero t c = Ok x
+    | None => c = CNil
+    end.
+Proof. exact tree_cursor_spec. Qed.
+Print Assumptions C03_cursor_lookup.
+
+(* Tree.Root(): nil for the empty tree, otherwise a cursor inside the tree whose subtree is all of Ls *)
+Theorem C03_root : forall (T : Type) (t : tree T),
+  wf T t (tree_root t) /\
+  match inorder t with
+  | [] => tree_root t = CNil
+  | _ :: _ => exists b, abs T t (tree_root t) = Some b /\ lo b = 0%nat /\ hi b = length (inorder t)
+  end.
+Proof. exact root_spec. Qed.
+Print Assumptions C03_root.
+
+(* In a search tree, from a valid cursor with key x: Left and Right succeed without panic, stay
+   inside the tree, and every key Inorder then lists is smaller (Left) resp. larger (Right) than x
+   (an invalid result lists nothing). *)
+Theorem C03_left_right_ordered : forall (T : Type) (zero : T) (cmp : T -> T -> Z),
+  forall (t : tree T) (c : cursor) (x : T), sorted cmp (inorder t) -> wf T t c -> valid c = true ->
+  key zero t c = Ok x ->
+  exists cl cr ysl ysr,
+    left t c = Ok cl /\ right t c = Ok cr /\ wf T t cl /\ wf T t cr /\
+    cinorder_all t cl = Ok ysl /\ cinorder_all t cr = Ok ysr /\
+    (forall y, In y ysl -> cmp y x < 0)%Z /\ (forall y, In y ysr -> cmp x y < 0)%Z.
+Proof. exact left_right_ordered. Qed.
+Print Assumptions C03_left_right_ordered.
+
+(* Operations on an invalid or nil cursor: every move returns the cursor unchanged, Clone returns
+   it, Key is the zero key, every Has* is false, Inorder yields nothing — in any tree. *)
+Theorem C03_invalid_identity : forall (T : Type) (zero : T) (t : tree T) (c : cursor) (m : move),
+  valid c = false ->
+  step t c m = Ok c /\ clone c = c /\
+  observe zero t c = Ok (mkObs false zero false false false false false []).
+Proof. exact invalid_identity. Qed.
+Print Assumptions C03_invalid_identity.
+
+(* Clone points to the same location (independence of later moves: correspondence only) *)
+Theorem C03_clone_value : forall c : cursor, clone c = c.
+Proof. exact clone_same. Qed.
+Print Assumptions C03_clone_value.
+
+(* ---- the hypotheses are satisfiable by non-trivial states, and the model computes *)
+Definition ex_tree : tree Z := Node (Node Leaf 1%Z (Node Leaf 2%Z Leaf)) 3%Z (Node Leaf 4%Z Leaf).
+
+Example C03_history_example :
+  wf Z ex_tree (CAt [L; R]) /\
+  run ex_tree (CAt [L; R]) [MNext; MNext; MNext; MPrev; MUp; MMin; MRight; MLeft] =
     Ok [CAt []; CAt [R]; CEmpty; CEmpty; CEmpty; CEmpty; CEmpty; CEmpty] /\
-  run t (CAt []) [MMin; MNext; MUp; MUp; MMax; MPrev; MLeft; MUp] =
-    Ok [CAt [L]; CAt [L; R]; CAt [L]; CAt []; CAt [R]; CAt []; CAt [L]; CAt []].
+  run ex_tree (CAt []) [MMin; MNext; MUp; MUp; MMax; MPrev; MLeft; MUp] =
+    Ok [CAt [L]; CAt [L; R]; CAt [L]; CAt []; CAt [R]; CAt []; CAt [L]; CAt []] /\
+  abs Z ex_tree (CAt [L; R]) = Some (mkPos 1 1 2) /\
+  observe 0%Z ex_tree (CAt [L]) = Ok (mkObs true 1%Z true false false true true [1%Z; 2%Z]).
 Proof. vm_compute. repeat split; reflexivity. Qed.
+
+Example C03_moves_example : exists cs, run ex_tree (CAt [R]) [MPrev; MLeft; MRight] = Ok cs /\ length cs = 3%nat.
+Proof. eexists. split; [vm_compute; reflexivity|reflexivity]. Qed.
+
+Lemma zsub_preorder : total_preorder Z.sub.
+Proof. split; intros; lia. Qed.
+
+Lemma ex_tree_sorted : sorted Z.sub (inorder ex_tree).
+Proof. cbn. repeat split; intros y Hy; cbn in Hy; intuition (subst; reflexivity). Qed.
+
+Example C03_cursor_lookup_example :
+  total_preorder Z.sub /\ sorted Z.sub (inorder ex_tree) /\
+  tree_cursor Z.sub ex_tree 2%Z = Ok (CAt [L; R]) /\ s_get Z.sub 2%Z (inorder ex_tree) = Some 2%Z /\
+  tree_cursor Z.sub ex_tree 5%Z = Ok CNil /\ s_get Z.sub 5%Z (inorder ex_tree) = None.
+Proof. split; [exact zsub_preorder|]. split; [exact ex_tree_sorted|]. vm_compute. repeat split; reflexivity. Qed.
+
+Example C03_root_example : tree_root ex_tree = CAt [] /\ abs Z ex_tree (tree_root ex_tree) = Some (mkPos 0 2 4).
+Proof. vm_compute. split; reflexivity. Qed.
+
+Example C03_left_right_ordered_example :
+  valid (CAt [L]) = true /\ key 0%Z ex_tree (CAt [L]) = Ok 1%Z /\
+  left ex_tree (CAt [L]) = Ok CEmpty /\ right ex_tree (CAt [L]) = Ok (CAt [L; R]) /\
+  cinorder_all ex_tree (CAt [L; R]) = Ok [2%Z].
+Proof. vm_compute. repeat split; reflexivity. Qed.
+
+Example C03_invalid_identity_example :
+  valid CNil = false /\ valid CEmpty = false /\ step ex_tree CEmpty MNext = Ok CEmpty /\
+  up (CAt []) = Ok CEmpty /\ next ex_tree (CAt [R]) = Ok CEmpty.
+Proof. vm_compute. repeat split; reflexivity. Qed.
+
+Example C03_clone_value_example : clone (CAt [L; R]) = CAt [L; R] /\ clone CNil = CNil.
+Proof. vm_compute. split; reflexivity. Qed.
